@@ -57,6 +57,7 @@ PROPS = {
         "stages": [
             {"mode": "native"},
             {"mode": "asan", "scale": 0.1},
+            {"mode": "miri", "tiers": ["thorough"], "scale": 0.0004},
         ],
         "rule": "an evaluation is one RDATA value of one type (all 38 concrete types + OPT options + unknown types, generated field by field from an RFC-derived "
                 "layout table with boundary sizes and a collision-prone name pool) taken through parse, rdlen, compose_rdata, compose_len_rdata, canonical "
